@@ -759,6 +759,48 @@ theorem regress_common_mask (fm : FitMethod) (V : List (List ℝ)) (ridge : ℝ)
   rw [parse_common_mask A [y] m hA (by simp) hAm (by intro r hr; simp at hr; rw [hr, hy])]
   simp
 
+/-- the pooled RDM of reduced rows has the length of the first reduced row -/
+theorem poolRows_length (pm : PoolMethod) (V : List (List ℝ)) (sh : ℝ → ℝ → ℝ) (r1 : List ℝ)
+    (rest : List (List ℝ)) : (poolRows pm V sh (r1 :: rest)).length = r1.length := by
+  cases pm
+  · simp [poolRows, colMeans]
+  · simp [poolRows, colMeans, normCos]
+  · simp only [poolRows]
+    have hc : (colMeans ((r1 :: rest).map normCorr)).length = r1.length := by
+      simp [colMeans, normCorr]
+    generalize colMeans ((r1 :: rest).map normCorr) = vals at hc ⊢
+    cases vals <;> simpa using hc
+  · simp [poolRows, colMeans, avgRank]
+  · simp [poolRows, colMeans]
+  · simp only [poolRows]
+    have hc : (colMeans (((r1 :: rest).map center).map
+        (fun x => x.map (fun a => a / nonzero (HasSqrt.sqrt (dot x (solve V x))))))).length = r1.length := by
+      simp [colMeans, center]
+    generalize colMeans (((r1 :: rest).map center).map
+        (fun x => x.map (fun a => a / nonzero (HasSqrt.sqrt (dot x (solve V x)))))) = vals at hc ⊢
+    cases vals <;> simpa using hc
+
+/-- **the whole `fit_regress` pipeline on a common mask** (HEAD: the training RDMs are pooled by
+    `util/pooling.pool_rdm` with the *same* `sigma_k` as the fit): with model RDMs and data RDMs
+    all lacking the same entries, theta is the regression of the reduced model RDMs on the pooled
+    reduced data RDMs, `V` reduced to the kept rows and columns in both steps. -/
+theorem fit_pipeline_common_mask (fm : FitMethod) (pm : PoolMethod) (V : List (List ℝ)) (ridge : ℝ)
+    (normalize : Bool) (A data : List (List (Option ℝ))) (m : List Bool) (hA : A ≠ []) (hD : data ≠ [])
+    (hAm : ∀ r ∈ A, maskOf r = m) (hDm : ∀ r ∈ data, maskOf r = m) :
+    fitRegress fm V ridge normalize A (poolRdm .pooling pm V data) =
+      .ok (let t := regressRows fm
+              (if fm = .cosineCov ∨ fm = .corrCov then some (subBlock m V) else none) ridge
+              (A.map delete)
+              (poolRows (effMethod .pooling pm) (subBlock m V) (poolShift .pooling pm) (data.map delete))
+           if normalize then normalizeTheta t else t) := by
+  have hpool := poolRdm_common_mask .pooling pm V m data hD hDm
+  obtain ⟨d1, drest, rfl⟩ := List.exists_cons_of_ne_nil hD
+  have hlen : (poolRows (effMethod .pooling pm) (subBlock m V) (poolShift .pooling pm)
+      ((d1 :: drest).map delete)).length = m.count true := by
+    rw [List.map_cons, poolRows_length, delete_length, hDm d1 (by simp)]
+  rw [regress_common_mask fm V ridge normalize A _ m hA hAm (by rw [hpool]; exact maskOf_scatter' m _ hlen)]
+  rw [hpool, delete_scatter' m _ hlen]
+
 /-- **model RDMs and pooled data lacking different entries ⇒ the fit raises** -/
 theorem regress_rejects_differing (fm : FitMethod) (V : List (List ℝ)) (ridge : ℝ) (normalize : Bool)
     (a0 : List (Option ℝ)) (A' : List (List (Option ℝ))) (y : List (Option ℝ))
